@@ -157,7 +157,12 @@ def run(tier, seed):
             F = ctx.facts(f)
             M = Matcher(f)
             ok = True
-            for s, fs in F.sources(rets(f)[0].ops[0]):
+            if not any(r_.ops for r_ in rets(f)):
+                # the helper reports nothing any more: its caller's loop cannot be the listed exception (which hinges on the report) and has
+                # been classified on its own above - nothing to support
+                rep.ok(rid, "S-build (%s): returns no status; the caller's loop is classified without it" % f.name, None, "%s:%s" % (f.file, f.line))
+                continue
+            for s, fs in F.sources([r_ for r_ in rets(f) if r_.ops][0].ops[0]):
                 if is_const(s) and const_val(s) == 0:
                     continue
                 if is_const(s) and const_val(s) == 1:
